@@ -133,7 +133,6 @@ Definition parse_tok (s : string) : option tok :=
 Local Close Scope string_scope.
 
 (* ---------------------------------------------------------------- vocabulary *)
-Fixpoint rangeZ_aux (n : nat) (lo : Z) : list Z := match n with O => [] | S n' => lo :: rangeZ_aux n' (lo + 1) end.
 Definition rangeZ (lo hi : Z) : list Z := rangeZ_aux (Z.to_nat (hi - lo)) lo.   (* range(lo, hi) *)
 
 Definition note_tokens (c : cfg) : list tok :=
